@@ -5,6 +5,8 @@ import (
 	"sort"
 	"strings"
 
+	inhouse "verif/harness/cmd/mvh/inhouse/common"
+
 	"github.com/bluenviron/gomavlib/v3/pkg/dialect"
 	"github.com/bluenviron/gomavlib/v3/pkg/message"
 )
@@ -90,28 +92,53 @@ func safeDialectInit(d *dialect.Dialect) (rw *dialect.ReadWriter, ok, pan bool) 
 	return rw, err == nil, false
 }
 
+// dialectRecord: Initialize, lookup of EVERY id in 0..2^24-1; per hit the id, the definition of the Go type the codec
+// carries, the id that type reports and the CRC_EXTRA of the codec the dialect hands out.
+func dialectRecord(rec *Rec, name string, d *dialect.Dialect, ix map[reflect.Type]int) {
+	rw, ok, pan := safeDialectInit(d)
+	hits := [][]int{}
+	n := 0
+	if ok {
+		for id := uint32(0); id < 1<<24; id++ {
+			n++
+			if mrw := rw.GetMessage(id); mrw != nil {
+				t := reflect.TypeOf(mrw.Message)
+				hits = append(hits, []int{int(id), ix[t], int(mrw.Message.GetID()), int(mrw.CRCExtra())})
+			}
+		}
+	}
+	rec.Put(M{"e": "DIALECT", "name": name, "init_ok": ok, "panic": pan, "decl": dialectIndices(d, ix),
+		"hits": hits, "nlookups": n, "version": d.Version})
+}
+
+var namesakeCase = []message.Message{&MessageGoodOne{}, &inhouse.MessageHeartbeat{}}
+
 func cmdC17(o opts) {
 	rec := newRec(o.out)
 	protos := allProtos()
 	ix := defIndex(protos)
 
-	// every shipped dialect: Initialize, lookup of EVERY id in 0..2^24-1
-	for _, nd := range shipped {
-		rw, ok, pan := safeDialectInit(nd.D)
-		hits := [][]int{}
-		n := 0
-		if ok {
-			for id := uint32(0); id < 1<<24; id++ {
-				n++
-				if mrw := rw.GetMessage(id); mrw != nil {
-					t := reflect.TypeOf(mrw.Message)
-					hits = append(hits, []int{int(id), ix[t], int(mrw.Message.GetID())})
-				}
-			}
+	if o.aux == "userfirst" {
+		// a fresh process in which the in-house namesake dialect is initialized BEFORE the shipped one
+		var defs []DefJ
+		for _, m := range namesakeCase {
+			defs = append(defs, defOf(m))
 		}
-		rec.Put(M{"e": "DIALECT", "name": nd.Name, "init_ok": ok, "panic": pan, "decl": dialectIndices(nd.D, ix),
-			"hits": hits, "nlookups": n, "version": nd.D.Version})
+		_, ok, pan := safeDialectInit(&dialect.Dialect{Version: 3, Messages: namesakeCase})
+		rec.Put(M{"e": "DINIT", "case": "malformed_namesake_of_shipped_message_first", "defs": defs, "init_ok": ok, "panic": pan})
+		dialectRecord(rec, "inhouse_common_first", inhouse.Dialect, ix)
+		dialectRecord(rec, "common_after_inhouse", findDialect("common"), ix)
+		dialectRecord(rec, "minimal_after_inhouse", findDialect("minimal"), ix)
+		rec.Close()
+		return
 	}
+
+	// every shipped dialect
+	for _, nd := range shipped {
+		dialectRecord(rec, nd.Name, nd.D, ix)
+	}
+	// an in-house dialect whose package and type names coincide with shipped ones (initialized after them)
+	dialectRecord(rec, "inhouse_common_after_shipped", inhouse.Dialect, ix)
 
 	// cross-dialect type identity: per (Go struct name, id) the distinct types
 	type key struct {
@@ -154,8 +181,9 @@ func cmdC17(o opts) {
 			continue
 		}
 		pkg := reflect.TypeOf(p).Elem().PkgPath()
-		std := strings.HasSuffix(pkg, "/common") || strings.HasSuffix(pkg, "/minimal") || strings.HasSuffix(pkg, "/standard") ||
-			strings.HasSuffix(pkg, "/test")
+		const shippedPrefix = "github.com/bluenviron/gomavlib/v3/pkg/dialects/"
+		std := strings.HasPrefix(pkg, shippedPrefix) && (strings.HasSuffix(pkg, "/common") || strings.HasSuffix(pkg, "/minimal") ||
+			strings.HasSuffix(pkg, "/standard") || strings.HasSuffix(pkg, "/test"))
 		rec.Put(M{"e": "GOLD", "d": i + 1, "crc": int(rw.CRCExtra()), "std": std})
 	}
 
@@ -183,6 +211,8 @@ func cmdC17(o opts) {
 		{"enum_wire_types_all_valid", []message.Message{&MessageUserEnums{}}},
 		{"malformed_last_of_many", append(append([]message.Message{}, com.Messages[:30]...), &MessageBadType{})},
 		{"empty", []message.Message{}},
+		{"malformed_namesake_of_shipped_message", namesakeCase},
+		{"namesakes_of_shipped_messages", inhouse.Good},
 	}
 	for _, c := range cases {
 		var defs []DefJ
